@@ -56,7 +56,10 @@ CHECKS = {
         level="model_checking",
         technique="TLA+ specs mon/Monitor.tla (monitor objects on a heap, one action per public call) and mon/LogFile.tla (log and "
                   "parameter-file layouts) model-checked by TLC; every operation script / trajectory TLC emits is replayed into "
-                  "the real mystic.monitors and mystic.munge code with comparison after every operation",
+                  "the real mystic.monitors and mystic.munge code with comparison after every operation; grown: Monitor.tla has a "
+                  "Null object kind, SetSel/SetSlice/GetMin actions and view projections; LogFile.tla specifies the log file as "
+                  "a function of (records, interval, all, best) over plain and population-valued records and every munge reader / "
+                  "source / converter plus monitors._load as layout-transposition operators with round-trip invariants",
         text="Design invariants: len = calls, k transparent, every reported record is a recorded call, the argument of "
              "+/extend/prepend/__setitem__/indexing is unchanged, concatenation, slice and selection order (m[list], m[int array], "
              "m[bool mask], m[(selector,)] return exactly the selected records in selection order with the same k; m[i] returns "
@@ -69,12 +72,20 @@ CHECKS = {
              "records, dim 1-3, intervals 1-3, scalar and vector costs, ids, a 16-value catalogue incl. +-inf, nan, -0.0, "
              "5e-324, 1.7e308, numpy scalars and arrays) are written by a real LoggingMonitor and write_{raw,support,"
              "converge}_file and read back by logfile_reader, read_history, read_raw_file, read_import with NaN-aware exact "
-             "equality.",
+             "equality.  Also: a Null monitor never changes, reads empty, and as argument of +/extend/prepend/__setitem__ acts as "
+             "an empty monitor; m[sel]=b, m[a:b]=b and min() act on exactly the selected / first-minimal record; ix/ax/iy/ay "
+             "are projections of x/y.  A LoggingMonitor with all=False writes exactly the `best` member of a population-valued "
+             "record, with interval n only calls 0,n,2n,... while the monitor holds all; read_history / read_trajectories / "
+             "read_monitor from a log name, file object, monitor, solver, solver restart file or Null, read_support_file / "
+             "read_converge_file / read_old_support_file, the raw/converge/old->support converters and monitors._load(path) "
+             "give the trajectory back up to the stated layout.",
         note="trusted: TLC, the transcription of Python slicing/_get_y/_process_ids into TLA+, the harness's injective map from "
              "ids to concrete values; the cost catalogue avoids |y| > max/2 (k*y overflow) and integer-0 costs; m.extend(m)/"
              "m.prepend(m) excluded (never terminate: observation), ids in parameter files are int or None as documented; "
              "tuples of length >= 2 (projections into the parameter vectors), m[(i,)] and out-of-range selections are not modelled"
-             " (they raise or are outside the statement)",
+             " (they raise or are outside the statement); read_history(solver) for k in {None,1}; _load only as _load(path) on "
+             "support-layout files (its monitor/verbose arguments are undocumented: observation); klepto archive/cache and "
+             "dataset sources not bound",
         design_ref="DESIGN.md section 4/C20"),
     "C01": dict(
         level="model_checking",
